@@ -372,3 +372,42 @@ def wire_programs(rng, n):
                 ops.append(("wpr", ("pr", kind, v)))
         progs.append(((ctor, ops), tl))
     return progs
+
+
+def small_exhaustive(maxlen=4):
+    """Every call sequence up to `maxlen` over a small alphabet that includes the zero-byte writes
+    (empty slice, empty batch, unspecified addresses, empty section) and length changes: the
+    order-dependent corners of C09 / C10 live here."""
+    import itertools
+    alphabet = [("len", None), ("len", 0), ("len", 7), ("wp", ("sl", b"")), ("wps", []), ("wp", ("ad", ("unspec",))),
+                ("wp", ("sec", b"")), ("wp", ("u8", 1)), ("res", 1), ("tlv", 4, b"")]
+    ctors = [("new", 0x21, 0x00), ("new", 0x21, 0x11), ("with", 0x21, 1, ("unspec",)),
+             ("with", 0x20, 2, ("ipv4", bytes([1, 2, 3, 4]), bytes([5, 6, 7, 8]), 80, 443))]
+    progs = []
+    for n in range(0, maxlen + 1):
+        for combo in itertools.product(alphabet, repeat=n):
+            for c in ctors:
+                progs.append((c, list(combo)))
+    return progs
+
+
+def near_limit_wire_programs(rng):
+    """C07 shape with the running total reaching the last 16 bytes below 65535 before further writes."""
+    out = []
+    for addr in (rand_addr(rng, "unspec"), rand_addr(rng, "ipv4"), rand_addr(rng, "ipv6"), rand_addr(rng, "unix")):
+        room = 65535 - len(addr_bytes(addr))
+        for slack in (0, 1, 3, 6, 12, 15, 16, 17, 40):
+            tail = []
+            left = slack
+            while left >= 3:
+                ln = min(left - 3, rng.choice([0, 1, 2]))
+                tail.append((rng.choice(list(TYPE_CODES)), rand_bytes(rng, ln)))
+                left -= 3 + ln
+            first_len = room - 3 - (slack - left)
+            if first_len < 0 or first_len > 65535:
+                continue
+            tl = [(rng.getrandbits(8), bytes([0x5A]) * first_len)] + tail
+            ctor = ("with", rng.choice([0x20, 0x21]), rng.choice([0, 1, 2]), addr)
+            ops = [("tlv", k, v) if not isinstance(k, str) else ("wp", ("prt", k, v)) for k, v in tl]
+            out.append(((ctor, ops), tl))
+    return out
